@@ -14,7 +14,7 @@ pub const MANDATORY: &[&str] = &[
 
 const BASES: &[&str] = &[
     "http://a/b/c/d;p?q", "http://a", "http://a/", "http://a?q", "s://h/a/b/", "s://h/a/./b/../c", "s://h//a//b", "s:/a/b", "s:/", "s:", "s:a/b", "s:a",
-    "s:a:b/c", "s:/a/b?q", "s:?q", "s://", "s:///", "s://u@[::1]:8/x/y", "s:..", "s:../a", "s:/.//a/b", "file:///x/y/z",
+    "s:a:b/c", "s:/a/b?q", "s:?q", "s://", "s:///", "s://u@[::1]:8/x/y", "s:..", "s:../a", "s:/.//a/b", "file:///x/y/z", "s://h/a/b/.", "s://h/a/..", "s://h/..", "s://h/../../x", "s:/a/b/..", "s://h/a/b/?", "s://h/a/b?#", "s://h?q#f", "s:a/./b/../../../c", "s://h/a%2Fb/c",
 ];
 const REFS: &[&str] = &[
     "", "#f", "?y", "?y#f", "g", "./g", "g/", "/g", "//g", "//g/x/.", "//g/a/..", "g?y", "g#s", ";x", ".", "./", "..", "../", "../g", "../..", "../../", "../../g",
@@ -53,6 +53,19 @@ pub fn generate(ctx: &mut Ctx) {
         for r in REFS {
             if ctx.mine(bi) {
                 ctx.run(Case::new("res").arg(b).arg(r));
+            }
+            bi += 1;
+        }
+    }
+    for nb in [15usize, 16, 17, 18, 33] {
+        for nr in [0usize, 1, 15, 16, 17, 18, 40] {
+            if ctx.mine(bi) {
+                let base = format!("s://h/{}file?bq", (0..nb).map(|i| format!("b{}/", i)).collect::<String>());
+                for ups in [0usize, 1, nb / 2, nb, nb + 3] {
+                    let reference = format!("{}{}x/.", "../".repeat(ups), (0..nr).map(|i| format!("r{}/", i)).collect::<String>());
+                    ctx.run(Case::new("res").arg(&base).arg(&reference));
+                    ctx.run(Case::new("res").arg(base.replace("//h", "")).arg(&reference));
+                }
             }
             bi += 1;
         }
